@@ -116,7 +116,27 @@ inline Pools make_pools(bool thorough) {
                           "0.5", "2.5e-3", "6.02214076e23", "1e22", "1e23", "9007199254740993", "-9007199254740993"}) {
         p.numerals.push_back(T(n));
     }
+    // systematic small decimals: every two-digit fraction (leading zeros, trailing zeros, 09/90 shapes) under three integer parts
+    for (const char *ip : {"0", "1", "12", "-7"}) {
+        for (int f = 0; f < 100; f++) {
+            char b[32];
+            snprintf(b, sizeof b, "%s.%02d", ip, f);
+            p.numerals.push_back(T(b));
+        }
+        for (const char *f3 : {"001", "009", "090", "900", "099", "0001", "5000", "0909"}) {
+            p.numerals.push_back(T(ip) + T(".") + T(f3));
+            p.numerals.push_back(T(ip) + T(".") + T(f3) + T("e2"));
+            p.numerals.push_back(T(ip) + T(".") + T(f3) + T("E-2"));
+        }
+    }
     if (thorough) {
+        for (int f = 0; f < 1000; f++) {
+            char b[32];
+            snprintf(b, sizeof b, "3.%03d", f);
+            p.numerals.push_back(T(b));
+            snprintf(b, sizeof b, "40.%03de1", f);
+            p.numerals.push_back(T(b));
+        }
         for (int e = -30; e <= 30; e++) {
             char b[32];
             snprintf(b, sizeof b, "1.25e%d", e);
